@@ -870,7 +870,8 @@ static int32 parseSafeContents(psPool_t *pool, unsigned char *password,
                      CERT_STORE_UNPARSED_BUFFER)) < 0)
             {
                 psX509FreeCert(currCert);
-                *cert = NULL;
+                /* Certs from earlier bags stay on *cert for the caller to
+                   free, as on every other error path. */
                 psTraceCrypto("Couldn't parse certificate from CertBag\n");
                 return rc;
             }
